@@ -116,8 +116,13 @@ class Ctx:
     def count(self, label, n=1):
         self.counters[label] += n
 
+    NONTRIVIAL_CAP = 1_000_000  # per worker: beyond it non-trivial cases are counted, not hashed (memory bound)
+
     def mark_nontrivial(self, key_obj):
-        self.nontrivial.add(case_hash(key_obj))
+        if len(self.nontrivial) < self.NONTRIVIAL_CAP:
+            self.nontrivial.add(case_hash(key_obj))
+        else:
+            self.counters["nontrivial:beyond-the-per-worker-hash-cap(counted, not deduplicated)"] += 1
 
     def sample(self, obj, cls=""):
         if cls in self.sample_classes and len(self.samples) >= 2:
@@ -271,13 +276,22 @@ def _worker(args):
         failure = None
         t0 = time.time()
         sseed = derive_seed(seed, prop.ID, stage.name, shard)
+        shrink_for = None
+        if excluded and excluded[0] == "shrink":
+            # second pass of the quick tier: the same shard again (same seed, same examples), only the signature found
+            # in the first pass counts, and Hypothesis shrinks it under a short wall-clock cap
+            _, state["target"], shrink_for = excluded
         if isinstance(stage, HypStage):
             import hypothesis
             from hypothesis import HealthCheck, Phase, given, settings
 
             phases = [Phase.explicit, Phase.generate, Phase.target]
-            if tier == "thorough" and stage.thorough_shrink:
+            if (tier == "thorough" and stage.thorough_shrink) or shrink_for:
                 phases.append(Phase.shrink)
+            if shrink_for:
+                from hypothesis.internal.conjecture import engine as _engine
+
+                _engine.MAX_SHRINKING_SECONDS = shrink_for
             st_ = settings(
                 max_examples=stage.examples,
                 deadline=None,
@@ -381,6 +395,45 @@ def _isolate_crash(prop, jobs, ctx_mp):
     return results
 
 
+def shrink_pass(prop, job, failure, ctx_mp, seconds=25):
+    """Quick tier: re-run the failing Hypothesis shard in its own process with the shrink phase on (capped at `seconds`).
+    Returns the shrunk failure if it reproduces here with the same signature, else the failure as found."""
+    import queue as _queue
+
+    job2 = job[:5] + (("shrink", failure["signature"], seconds),)
+    q = ctx_mp.Queue()
+    p = ctx_mp.Process(target=_job_proc, args=(job2, q))
+    p.start()
+    res = None
+    deadline = time.time() + 3 * seconds + 120
+    while time.time() < deadline:
+        try:
+            res = q.get(timeout=0.5)
+            break
+        except _queue.Empty:
+            if not p.is_alive() and q.empty():
+                break
+    if p.is_alive():
+        p.terminate()
+    p.join()
+    if not res or res.get("harness_error") or not res.get("failure"):
+        return failure
+    f2 = res["failure"]
+    if f2["signature"] != failure["signature"]:
+        return failure
+    try:
+        prop.run_case(json.loads(json.dumps(f2["case"], default=str)), Ctx())
+    except Violation as v:
+        if v.signature == failure["signature"]:
+            size0 = len(json.dumps(failure["case"], default=str))
+            size1 = len(json.dumps(f2["case"], default=str))
+            f2 = dict(f2, shrunk_from_bytes=size0, shrunk_to_bytes=size1)
+            return f2
+    except Exception:  # noqa: BLE001 - a shrunk case that does not replay cleanly is not used
+        pass
+    return failure
+
+
 def minimise(prop, known, failure, budget_s=20.0):
     """Cheap generic minimiser (quick tier has no Hypothesis shrink phase): uses prop.shrink_candidates if given."""
     cand_fn = getattr(prop, "shrink_candidates", None)
@@ -421,6 +474,7 @@ def write_replay(prop, failure, tag="violation"):
                 "kind": failure["kind"],
                 "detail": failure["detail"],
                 "case": failure["case"],
+                **({"shrunk": {"from_bytes": failure["shrunk_from_bytes"], "to_bytes": failure["shrunk_to_bytes"], "how": "Hypothesis shrink phase on the failing shard, capped"}} if "shrunk_from_bytes" in failure else {}),
             },
             fh,
             indent=1,
@@ -529,7 +583,15 @@ def run_check(prop, tier, seed, replay=None):
     if violations:
         first = violations[0]
         if "replay" not in first:
-            first = minimise(prop, known, first) if tier == "quick" else first
+            if tier == "quick" and first.get("kind") != "interpreter-crash" and os.environ.get("VERIF_NO_SHRINK") != "1":
+                fjob = next((j for j in jobs if stages[j[1]].name == first["stage"] and j[2] == first["shard"]), None)
+                if fjob is not None and isinstance(stages[fjob[1]], HypStage):
+                    shrunk = shrink_pass(prop, fjob, first, ctx_mp)
+                    if shrunk is not first:
+                        shrunk["stage"], shrunk["shard"] = first["stage"], first["shard"]
+                        violations[0] = first = shrunk
+                first = minimise(prop, known, first)
+                violations[0] = first
             first["replay"] = write_replay(prop, first)
         # distinct signatures are listed; one VIOLATION line per distinct signature (first is the deciding one)
         seen = set()
